@@ -19,6 +19,7 @@ type Profile struct {
 	MaxNodes          int
 	NoTruncation      bool // keep text limits large (C18, C19 need untruncated markers)
 	AllowWebhookAfter bool // allow @webhook / @legacy_extra references outside the calling node (C02 variant only)
+	NoWebhookRefs     bool // never reference @webhook (strict C02: the last webhook is transient by contract, and a call that is skipped leaves the previous sprint's value visible)
 	Voice             bool // allow voice flows
 	OldVersions       bool // store some definitions in older spec versions
 	NumberFormat      bool // environments may carry a number_format
